@@ -26,15 +26,24 @@ def _apply(buf, op, m):
             _M.swap_multiples(buf, m)
         else:
             getattr(_M, op)(buf)
-    except ValueError:
-        exc = "ValueError"
+    except Exception as e:      # whatever the function under test raises is an observation (the model knows only ValueError for m < 0)
+        exc = type(e).__name__
     return exc
 
 
+def _call(fn, s):
+    a = bytearray(s)
+    try:
+        fn(a)
+    except Exception:
+        return [-1]          # no byte string: an exception from a total function disagrees with every model value
+    return a
+
+
 def _fn_row(s, m):
-    a = bytearray(s); _M.interleave(a)
-    b = bytearray(s); _M.deinterleave(b)
-    c = bytearray(s); _M.flip_msb(c)
+    a = _call(_M.interleave, s)
+    b = _call(_M.deinterleave, s)
+    c = _call(_M.flip_msb, s)
     d = bytearray(s)
     exc = _apply(d, "swap_multiples", m)
     return [s, m, list(a), list(b), list(c), list(d), exc]
